@@ -197,10 +197,16 @@ class Lowering:
         self._busy.add(body.path)
         raw = copy.deepcopy(body.raw)
         changed = False
+        limit = max(600, 8 * len(body.raw['blocks']))
         for _ in range(40):
             if not self.lower_one(raw):
                 break
             changed = True
+            if len(raw['blocks']) > limit:
+                # a closure that (directly or through the function it belongs to) contains the chain it is inlined into keeps
+                # re-creating work: give this body up and leave it as written
+                raw, changed = body.raw, False
+                break
         self._busy.discard(body.path)
         self._done[body.path] = raw if changed else body.raw
         return self._done[body.path]
